@@ -45,6 +45,35 @@ fn f_space(r: &mut Run, name: &str, menu_f: Vec<Frag>, n: usize) -> Result<(), M
     })
 }
 
+/// The other entry point to first-fit: `WrapAlgorithm::FirstFit.wrap(&[Word], &[usize])`, with
+/// hand-built words that carry penalties (as a hyphen-inserting splitter produces them).
+fn words_through_wrap_algorithm(r: &mut Run) -> Result<(), MachineryError> {
+    use textwrap::core::Word;
+    use textwrap::WrapAlgorithm;
+    let t = r.tier;
+    let menu_w: Vec<(&'static str, &'static str, &'static str)> = vec![("a", "", ""), ("ab", " ", ""), ("abc", "  ", ""), ("", "", ""), ("ab", "", "-"), ("\u{4f60}", " ", ""), ("a", " ", "-")];
+    let lists: Vec<Vec<usize>> = vec![vec![], vec![0], vec![1], vec![3], vec![5], vec![2, 5], vec![5, 2], vec![1, 2, 3], vec![4, 0, 4]];
+    let n = t.pick(4, 6);
+    let space = Space { name: "C07/words-through-WrapAlgorithm".into(), menu: menu_w.iter().map(|w| format!("{:?}", w)).collect(), max_len: n, desc: format!("sequences of <= {} hand-built Words (word, whitespace, penalty) through WrapAlgorithm::FirstFit.wrap x usize line-width lists {:?}", n, lists) };
+    r.space(space, |seq, cx| {
+        let words: Vec<Word> = seq.iter().map(|&k| { let (w, ws, p) = menu_w[k as usize]; Word { word: w, whitespace: ws, penalty: p, width: ref_width(w) } }).collect();
+        cx.set_input(&format!("{:?}", seq.iter().map(|&k| menu_w[k as usize]).collect::<Vec<_>>()));
+        let fr: Vec<Frag> = words.iter().map(|w| Frag { w: w.width as f64, ws: w.whitespace.len() as f64, p: w.penalty.len() as f64 }).collect();
+        for lw in &lists {
+            cx.eval();
+            let d = || format!("line_widths={:?}", lw);
+            if let Some(got) = cx.guard(|| WrapAlgorithm::FirstFit.wrap(&words, lw).iter().map(|l| l.len()).collect::<Vec<usize>>()) {
+                let lwf: Vec<f64> = lw.iter().map(|&x| x as f64).collect();
+                let exp = ref_first_fit(&fr, &lwf);
+                if got.len() >= 2 {
+                    cx.nontrivial();
+                }
+                cx.check("C07-words-greedy-rule", got == exp, &d, &|| json!({"line_lengths": got, "greedy_rule": exp}));
+            }
+        }
+    })
+}
+
 fn run(r: &mut Run) -> Result<(), MachineryError> {
     let t = r.tier;
     let big = frag_menu(&[0.0, 0.5, 1.0, 2.0, 3.5, 5.0], &[0.0, 0.5, 1.0, 2.0], &[0.0, 1.0]);
@@ -57,5 +86,6 @@ fn run(r: &mut Run) -> Result<(), MachineryError> {
     text_space(r, "C07/text-rich", &[L, SP, HY, TAB, ZW, NB, OP, CL, EM, E2, NL, D], t.pick(3, 5), &g, M_C07, WidthMode::Display, 3)?;
     char_context_space(r, "C07/all-characters-in-context", M_C07, vec![Alg::FirstFit])?;
     escape_scan_space(r, "C07/escape-grammar-scan", M_C07, vec![Alg::FirstFit])?;
-    Ok(())
+    scale::frag_scale(r, "C07/long-periodic", "C07")?;
+    words_through_wrap_algorithm(r)
 }
